@@ -13,6 +13,7 @@ import (
 	"time"
 
 	"github.com/ipfs/go-cid"
+	"github.com/ipld/go-ipld-prime"
 	"github.com/ipld/go-ipld-prime/datamodel"
 	cidlink "github.com/ipld/go-ipld-prime/linking/cid"
 	"github.com/ipld/go-ipld-prime/traversal"
@@ -132,8 +133,17 @@ type NodeOpts struct {
 	Workers           uint64
 }
 
+// addGSWithLinkSystem adds a node whose link system is produced by mk (fault injection in codecs / reifiers).
+func (w *World) addGSWithLinkSystem(name string, st *store.Store, mk func(*store.Store) ipld.LinkSystem) *GSNode {
+	return w.addGS(name, st, NodeOpts{}, mk(st))
+}
+
 // AddGS adds a real GraphSync instance with recording hooks and listeners.
 func (w *World) AddGS(name string, st *store.Store, o NodeOpts) *GSNode {
+	return w.addGS(name, st, o, st.LinkSystem())
+}
+
+func (w *World) addGS(name string, st *store.Store, o NodeOpts, lsys ipld.LinkSystem) *GSNode {
 	n := &GSNode{W: w, Name: name, Net: w.Fab.AddNode(name), Store: st, Workers: 6}
 	n.ID = n.Net.ID
 	if o.Workers > 0 {
@@ -145,7 +155,7 @@ func (w *World) AddGS(name string, st *store.Store, o NodeOpts) *GSNode {
 		n.panics = append(n.panics, fmt.Sprint(obj))
 		n.mu.Unlock()
 	})}, o.Options...)
-	gs := gsimpl.New(w.Ctx, n.Net, st.LinkSystem(), opts...)
+	gs := gsimpl.New(w.Ctx, n.Net, lsys, opts...)
 	n.GS = gs
 	n.Impl = gs.(*gsimpl.GraphSync)
 	gs.RegisterIncomingRequestHook(func(p peer.ID, r graphsync.RequestData, a graphsync.IncomingRequestHookActions) {
